@@ -180,27 +180,34 @@ ALGOS = {
 
 # ---- monitoring of the arguments of the compiled kernels (contract of the kind declarations) ------------
 CALLS = []
+# kernels entered from Python: the module through whose namespace they are called
 MONITOR = {
-    'vote_update': ('sknetwork.classification.propagation', ['indptr', 'indices', 'data', 'labels', 'index']),
-    'optimize_core': ('sknetwork.clustering.louvain', ['labels', 'indices', 'indptr', 'data', 'out_weights', 'in_weights',
-                                                        'out_cluster_weights', 'in_cluster_weights', 'cluster_weights',
-                                                        'self_loops', 'resolution', 'tol_optimization']),
-    'optimize_refine_core': ('sknetwork.clustering.leiden', ['labels', 'labels_refined', 'indices', 'indptr', 'data',
-                                                              'out_weights', 'in_weights', 'out_cluster_weights',
-                                                              'in_cluster_weights', 'cluster_weights', 'self_loops',
-                                                              'resolution']),
-    'diffusion': ('sknetwork.linalg.ppr_solver', ['indptr', 'indices', 'data', 'scores', 'fluid', 'damping_factor',
-                                                  'n_iter', 'tol']),
-    'push_pagerank': ('sknetwork.linalg.ppr_solver', ['n', 'degrees', 'indptr', 'indices', 'rev_indptr', 'rev_indices',
-                                                      'seeds', 'damping_factor', 'tol']),
-    'weisfeiler_lehman_coloring': ('sknetwork.topology.weisfeiler_lehman', ['indptr', 'indices', 'labels', 'powers',
-                                                                            'max_iter']),
+    'vote_update': 'sknetwork.classification.propagation',
+    'optimize_core': 'sknetwork.clustering.louvain',
+    'optimize_refine_core': 'sknetwork.clustering.leiden',
+    'diffusion': 'sknetwork.linalg.ppr_solver',
+    'push_pagerank': 'sknetwork.linalg.ppr_solver',
+    'weisfeiler_lehman_coloring': 'sknetwork.topology.weisfeiler_lehman',
 }
 
 
+def _rec(v):
+    if hasattr(v, 'shape') and len(v.shape) >= 1:
+        arr = np.asarray(v)
+        return {'len': int(arr.shape[0]),
+                'ints': arr.tolist() if arr.dtype.kind in 'iub' and arr.size <= 400 else None}
+    if isinstance(v, (bool, np.bool_)):
+        return {'int': int(v)}
+    if isinstance(v, (int, np.integer)):
+        return {'int': int(v)}
+    return {'other': type(v).__name__}
+
+
 def install_monitors():
+    """Record the positional / keyword arguments of every kernel call (the harness names them with the
+    parameter list the translator read from the source)."""
     import importlib
-    for kname, (modname, argnames) in MONITOR.items():
+    for kname, modname in MONITOR.items():
         try:
             mod = importlib.import_module(modname)
         except Exception:
@@ -209,19 +216,12 @@ def install_monitors():
         if orig is None:
             continue
 
-        def wrap(orig=orig, kname=kname, argnames=argnames):
+        def wrap(orig=orig, kname=kname):
             def w(*args, **kw):
                 if len(CALLS) < 40:
                     try:
-                        rec = {'kernel': kname, 'args': {}}
-                        for nm, v in list(zip(argnames, args)) + list(kw.items()):
-                            if hasattr(v, 'shape') and len(v.shape) >= 1:
-                                arr = np.asarray(v)
-                                rec['args'][nm] = {'len': int(arr.shape[0]),
-                                                   'ints': arr.tolist() if arr.dtype.kind in 'iub' and arr.size <= 400 else None}
-                            elif isinstance(v, (int, np.integer)):
-                                rec['args'][nm] = {'int': int(v)}
-                        CALLS.append(rec)
+                        CALLS.append({'kernel': kname, 'pos': [_rec(v) for v in args],
+                                      'kw': {k: _rec(v) for k, v in kw.items()}})
                     except Exception as e:  # monitoring must never change the behaviour of the call
                         CALLS.append({'kernel': kname, 'monitor_error': repr(e)})
                 return orig(*args, **kw)
